@@ -142,7 +142,7 @@ def make_cases(spec, tspec, rng, msgtypes, adoc_i, tdoc_i, quick):
     begin = 'FIXT.1.1' if spec.name.startswith('FIX50') else BEGIN[spec.name]
     specname = ('FIXT:' + spec.name) if spec.name.startswith('FIX50') else spec.name
     tags_in_doc = set(spec.bynum) | set(tspec.bynum)
-    hdr_defined = set(tspec.byname[p['name']]['num'] for p in tspec.expand(tspec.doc['header']) if p['name'] in tspec.byname)
+    hdr_defined = deep_tags(tspec, tspec.doc['header']) | deep_tags(tspec, tspec.doc['trailer'])
 
     def add(mt, body, kind, tag, settings, hdr_extra=None, raw_fields=None):
         hdr = [(8, begin), (9, '0'), (35, mt), (49, 'A'), (56, 'B'), (34, '2'), (52, '20240101-12:00:00')]
